@@ -32,6 +32,9 @@ Grammar (everything else is refused)
                the code string (what eval does with it stays modelled as in Model/C12_GPPrint.v).
 Types: str, nat (every int), bool, node, ty, cst, pset, fpset, arity (option nat), tpl (a format string), conv, tval, compiled, obj, lists,
 pairs, dicts with str keys, option.  Locals are named v_<name> in the generated text.
+An in-place change of a parameter is refused (the caller would see it), except `self` of a procedure, whose final
+state is the result (renameArguments); compileADF's change of each pset.context is local to the loop variable: what the
+caller sees of it afterwards is not regenerated (nor modelled).
 C12_FORCE_REFUSE=<gen name>[,..] in the environment forces the refusal of functions (self-test of the proof scripts).
 """
 import ast
@@ -281,15 +284,18 @@ class Tr(object):
     # ---------------------------------------------------------------- places
     def place(self, e, env):
         """a mutable location: (read text, type, set(new text) -> (pattern, None) let-binding)"""
+        base = e.value if isinstance(e, ast.Attribute) else e
+        if isinstance(base, ast.Name) and base.id in self.sig["env"] and base.id not in self.rebound \
+                and not (base.id == "self" and self.sig["ends"] == "self"):
+            # the caller would see the change; only `self` of a procedure is handed back as the result
+            refuse(e, "in-place change of the parameter %s" % base.id)
         if isinstance(e, ast.Name):
             if e.id not in env:
                 refuse(e, "name %s is not bound" % e.id)
             v = "v_" + e.id
             return v, env[e.id], (lambda new: ("%s := %s" % (v, new), None)), e.id
         if isinstance(e, ast.Attribute) and isinstance(e.value, ast.Name) and e.value.id in env \
-                and e.value.id != "self" or (isinstance(e, ast.Attribute) and isinstance(e.value, ast.Name)
-                                             and e.value.id == "self" and "selfattrs" not in self.sig
-                                             and "self" in env):
+                and not e.value.id.startswith("self.") and not (e.value.id == "self" and "selfattrs" in self.sig):
             t = env[e.value.id]
             a = ATTRS.get((t, e.attr))
             if a is None or a[3] is None or a[2]:
@@ -803,8 +809,6 @@ class Tr(object):
                     if isinstance(x, ast.Subscript) and isinstance(x.value, ast.Name) and x.value.id in self.fresh_item_lists:
                         env2["#alias:" + x.value.id] = True
             if isinstance(target, ast.Name):
-                if any(target.id in lp.state for lp in self.loops) or True:
-                    pass
                 env2[target.id] = vt
                 return wrap(pre + [("v_%s := %s" % (target.id, t), None)], cont(env2))
             if len(target.elts) != 2 or not all(isinstance(x, ast.Name) for x in target.elts) or not is_k(vt, "pair"):
@@ -1214,6 +1218,14 @@ class Tr(object):
                 refuse(fd, "decorator")
         env = dict(sig["env"])
         self.live_out = set()
+        # parameters rebound by a plain assignment somewhere: from then on the name may hold a local value
+        self.rebound = set()
+        for n in ast.walk(fd):
+            if isinstance(n, ast.Assign):
+                for t in n.targets:
+                    for x in ([t] if isinstance(t, ast.Name) else t.elts if isinstance(t, ast.Tuple) else []):
+                        if isinstance(x, ast.Name):
+                            self.rebound.add(x.id)
         self.order = {}
         for n in ast.walk(fd):
             tg = []
